@@ -169,12 +169,13 @@ def run_sim(rec, spec, rng, i):
         ctx = mc.context
         if r < 0.5:
             T = rand_T(rng)
-            mc.temperature = T
+            # the same number in the representations a script may hold it in: Python float, numpy scalar, 0-d array
+            mc.temperature = [T, np.float64(T), np.array(T)][int(rng.integers(0, 3))]
             metropolis.intend(ctx, T=T)
             rec.count("parameter_changes")
         if ens.startswith("iso") and rng.random() < 0.3:
             P = float(rng.choice([-1, 1]) * 10 ** rng.uniform(-6, 1))
-            mc.pressure = P
+            mc.pressure = [P, np.float64(P)][int(rng.integers(0, 2))]
             metropolis.intend(ctx, P=P)
             rec.count("parameter_changes")
             if ens == "isotension-hydro":
